@@ -78,9 +78,10 @@ at `Float`, where `0 * NaN = NaN` -/
 def fitA (sqrtN : Nat → K) (cos sin : K → K) (p k : Nat) (a : Gen.FitArgs (Nat → K) (Nat → Bool) (Nat → Nat) (Nat → K)) : Nat → K :=
   fitX p k (basisOfArgs sqrtN cos sin (Gen.fitBasisArgs a)) (fun s => Gen.fitSelect (a.mask s) (a.opd s))
 
-/-- `zernike_remove(**a)`: coefficients from `zernike_fit(**Gen.removeFitArgs a)`, basis from `zernike_basis(**Gen.removeBasisArgs a)` -/
+/-- `zernike_remove(**a)`: coefficients from `zernike_fit(**Gen.removeFitArgs a)`, basis from `zernike_basis(**Gen.removeBasisArgs a)`, combined
+with the input by the REGENERATED returned expression `Gen.removeResidual` (`opd - fit_opd` in the source) -/
 def removeA (sqrtN : Nat → K) (cos sin : K → K) (p k : Nat) (a : Gen.RemoveArgs (Nat → K) (Nat → Bool) (Nat → Nat) (Nat → K)) : Nat → K :=
-  fun s => a.opd s - composeX k (basisOfArgs sqrtN cos sin (Gen.removeBasisArgs a)) (fitA sqrtN cos sin p k (Gen.removeFitArgs a)) s
+  fun s => Gen.removeResidual (a.opd s) (composeX k (basisOfArgs sqrtN cos sin (Gen.removeBasisArgs a)) (fitA sqrtN cos sin p k (Gen.removeFitArgs a)) s)
 
 end
 end Lentil
